@@ -71,7 +71,13 @@ def extract_json(body, schema):
     """Extract JSON from a body and validate with the provided schema."""
     try:
         data = jsonutils.loads(body)
-    except ValueError as exc:
+        # JSON can spell strings that cannot be encoded as UTF-8 (a lone
+        # surrogate written as an escape such as "\\ud800"); they can be
+        # neither stored nor sent back, so they are malformed for us.
+        jsonutils.dumps(data, ensure_ascii=False).encode('utf-8')
+    except (ValueError, RecursionError) as exc:
+        # ValueError includes UnicodeError; RecursionError is raised for
+        # documents nested too deeply to decode.
         raise webob.exc.HTTPBadRequest(
             'Malformed JSON: %(error)s' % {'error': exc},
             json_formatter=json_error_formatter)
